@@ -503,11 +503,115 @@ def _c09_job(sp):
                 samples=samples, cls=sp['cls'])
 
 
+IO_OPS = ('s1', 's137', 's1500', 'update', 'reset')
+
+
+def _io_apply(b, op, pool, group):
+    name = type(b).__name__
+    if op == 'update':
+        b.update(group)
+    elif op == 'reset':
+        b.reset()
+    else:
+        n = int(op[1:])
+        if name == 'NautilusBound':
+            b.sample(n, pool=pool)
+        else:
+            b.sample(n)
+
+
+def _c09_history_job(sp, depth):
+    """operation-history search on the incremental-update path: after an initial write, ALL sequences
+    over {sample(1), sample(137), sample(1500), update, reset} up to `depth`; after every `update` the
+    group is read back and must equal a fresh full write of the live bound (structural digest of the
+    read-back objects incl. caches and counters)"""
+    import h5py
+    viol = {}
+    n_seq = 0
+    n_chk = 0
+
+    def V(sig, msg, seq):
+        viol.setdefault(sig, Violation('C09', sig, msg, dict(kind='history', spec=sp, depth=depth,
+                                                             sequence=list(seq))))
+    states = list(build_states(sp)) if sp['cls'] != 'Union' else None
+    if sp['cls'] == 'Union':
+        from nautilus.bounds import Union, Ellipsoid, UnitCubeEllipsoidMixture
+        pts = B.pointset(sp['family'], sp['d'], sp['n'], sp['seed'])
+        C = Ellipsoid if sp['member'] == 'Ellipsoid' else UnitCubeEllipsoidMixture
+        u = Union.compute(pts, enlarge_per_dim=sp['enlarge'], n_points_min=sp['npm'],
+                          unit=sp['unit'], bound_class=C, rng=np.random.default_rng(3))
+        u.split()
+        states = [('split-once', u, dict(unit=sp['unit']))]
+    label, b0, info = states[0]
+    pool = info.get('pool')
+    name = type(b0).__name__
+    starts = [(label, pickle.dumps(b0))]
+    b1 = pickle.loads(pickle.dumps(b0))
+    B.set_rng(b1, clone_gen(98))
+    _io_apply(b1, 's137', pool, None)
+    starts.append((label + '+partly-sampled', pickle.dumps(b1)))
+    for label, pk in starts:
+      for L in range(1, depth + 1):
+        for seq in itertools.product(IO_OPS, repeat=L):
+              if 'update' not in seq or seq[-1] != 'update':
+                  continue
+              n_seq += 1
+              b = pickle.loads(pk)
+              B.set_rng(b, clone_gen(99))
+              f = h5py.File('nvmc-hist-{}.h5'.format(id(b)), 'w', driver='core', backing_store=False)
+              try:
+                  g = f.create_group('b')
+                  b.write(g)
+                  for i, op in enumerate(seq):
+                      try:
+                          _io_apply(b, op, pool, g)
+                      except Exception as e:
+                          V('history-raises:{}:{}'.format(op, type(e).__name__),
+                            '{}: {} raised {}: {} in sequence {}'.format(name, op, type(e).__name__, e,
+                                                                       seq[:i + 1]), seq[:i + 1])
+                          break
+                      if op == 'update':
+                          n_chk += 1
+                          upd = type(b).read(g, rng=clone_gen(1))
+                          full = B.h5_roundtrip(b, clone_gen(1))
+                          if core.digest(upd) != core.digest(full):
+                              V('update-differs-from-full-write:' + name,
+                                '{} ({}): after write; {} the group read back differs from a full write '
+                                'of the same state (cached points {} vs {}, n_sample {} vs {})'.format(
+                                    name, label, '; '.join(seq[:i + 1]), len(upd.points),
+                                    len(full.points), int(upd.n_sample), int(full.n_sample)),
+                                seq[:i + 1])
+                              break
+              finally:
+                  f.close()
+    return dict(states=n_seq, transitions=n_chk, violations=list(viol.values()),
+                samples=[dict(history_search=dict(cls=sp['cls'], depth=depth, sequences=n_seq,
+                                                  checks_after_update=n_chk))], cls='history')
+
+
+def _c09_any(kind, *args):
+    if kind == 'zoo':
+        return _c09_job(*args)
+    return _c09_history_job(*args)
+
+
 def run_C09(tier):
     timer = core.Timer()
     specs = [sp for sp in zoo_specs(tier, 'C09')
              if not (sp['cls'] in ('Ellipsoid', 'UnitCubeEllipsoidMixture') and sp['d'] == 1)]
-    res = core.pmap(_c09_job, [(sp,) for sp in specs])
+    depth = 3 if tier == 'quick' else 4
+    s = core.SEED
+    hist = [dict(cls='Union', member='Ellipsoid', unit=True, family='three', d=2, n=36, enlarge=1.1,
+                 npm=4, seed=s),
+            dict(cls='Union', member='UnitCubeEllipsoidMixture', unit=False, family='two', d=3, n=30,
+                 enlarge=1.1, npm=5, seed=s),
+            dict(cls='NautilusBound', d=2, n_networks=0, periodic=None, family='two', pool=0,
+                 enlarge=1.1, seed=s),
+            dict(cls='NautilusBound', d=2, n_networks=1, periodic=[0], family='wrapped', pool=0,
+                 enlarge=1.1, seed=s),
+            dict(cls='NautilusBound', d=2, n_networks=0, periodic=[0], family='wrapped', pool=2,
+                 enlarge=1.1, seed=s)]
+    res = core.pmap(_c09_any, [('history', sp, depth) for sp in hist] + [('zoo', sp) for sp in specs])
     violations = [v for r in res for v in r['violations']]
     by_cls = {}
     for r in res:
@@ -515,9 +619,13 @@ def run_C09(tier):
     cov = dict(
         states=sum(r['states'] for r in res), transitions=sum(r['transitions'] for r in res),
         traces_validated_against_impl=sum(r['transitions'] for r in res),
-        samples=[s for r in res for s in r['samples']][:6], exhaustive=True,
+        samples=[s for r in res for s in r['samples']][:8], exhaustive=True,
         specifications=len(specs), states_per_class=by_cls,
-        explanation='every bound state of the C07 zoo (all classes, unit T/F, periodic or not, 0-2 '
+        update_history_depth=depth,
+        explanation='(1) operation-history search on the incremental-update path: after an initial '
+                    'write, all sequences over {sample(1), sample(137), sample(1500), update, reset} '
+                    'up to the stated depth on unions and nautilus bounds; after every update the '
+                    'group read back must equal a full write of the live bound; (2) every bound state of the C07 zoo (all classes, unit T/F, periodic or not, 0-2 '
                     'networks with non-default hyper-parameters, fresh / split / trimmed / partly '
                     'sampled) is written to an in-memory HDF5 group and read back; contains() on a '
                     'lattice + construction points + 2000 stream points, log_v, and three sample() '
@@ -542,6 +650,8 @@ def replay(prop, path):
         out = _c13_job(r['job'])
     elif prop == 'C07':
         out = _c07_job(r['spec'])
+    elif r.get('kind') == 'history':
+        out = _c09_history_job(r['spec'], r['depth'])
     else:
         out = _c09_job(r['spec'])
     hit = [v for v in out['violations'] if v['signature'] == rep['signature']]
